@@ -105,7 +105,7 @@ type (
 func (p *PipelineRetains) getNode() *AstNode     { return &p.Node }
 func (s *PipelineRetains) File() *SourceFile     { return s.Node.Loc.File }
 func (s *PipelineRetains) Line() int             { return s.Node.Loc.Line }
-func (s *PipelineRetains) inheritComments() bool { return true }
+func (s *PipelineRetains) inheritComments() bool { return false }
 func (s *PipelineRetains) getSubnodes() []AstNodable {
 	params := make([]AstNodable, 0, len(s.Refs))
 	for _, p := range s.Refs {
